@@ -70,7 +70,19 @@ def gen(ctx, tier, rng):
         for (name, kb, nb, ab) in AEADS:
             if n > 300 or n % 3 == 0 or full:
                 T.append(("AEAD", name, m, rb(rng, rng.choice([0, 13, 32])), rb(rng, nb), rb(rng, kb)))
+    # long messages in place ("for every length"): past 16 / 32 / 64 / 128 KiB, where an implementation may switch to chunked processing
+    for n in [32767, 32768, 32769, 49153, 65535, 65536, 65537] + ([131077, 262157] if full else [131077]):
+        m = rb(rng, n)
+        for (c, nl) in (("chacha20", 8), ("chacha20_ietf", 12), ("xchacha20", 24), ("salsa20", 8), ("xsalsa20", 24)):
+            T.append("ovl.inplace %s %s %s %d %s" % (c, hexs(m), hexs(rb(rng, nl)), rng.choice([0, 1, 7]), hexs(rb(rng, 32))))
+        for (name, kb, nb, ab) in AEADS:
+            if n <= 65537 or name in ("chachapoly", "chachapoly_ietf", "xchachapoly"):
+                T.append(("AEAD", name, m, rb(rng, rng.choice([0, 13])), rb(rng, nb), rb(rng, kb)))
     return T
+
+
+def MODEL_RUN(ctx, lines):
+    return vcore.run_model_parallel(ctx, lines)     # stateless ops; the long in-place messages dominate the model's run time
 
 
 def post_model(ctx, T, run_model):
